@@ -41,8 +41,12 @@ Dmls8 == {[k |-> "insert", t |-> t, cols |-> cs, vals |-> vs, where |-> <<>>] :
                  t \in {"t8", "nosuch"}, c \in Names8, v \in DmlVals, w \in {<<>>, << <<Cmp(Col("", "a"), "=", Lit(IntV(1)))>> >>, << <<Cmp(Col("", "s"), "<", Lit(IntV(1)))>> >>, << <<Cmp(Col("", "zz"), "=", Lit(IntV(1)))>> >>}}
          \cup {[k |-> "delete", t |-> t, cols |-> <<>>, vals |-> <<>>, where |-> w] :
                  t \in {"t8", "nosuch"}, w \in {<<>>} \cup {<< <<c>> >> : c \in {Cmp(Col("", "a"), op, r) : op \in Ops, r \in {Lit(StrV(<<A>>)), Col("", "s"), Lit(IntV(1))}} \cup {Cmp(Col("", "c"), "<", Lit(BoolV(TRUE))), Cmp(Col("", "zz"), "=", Lit(IntV(1)))}}}
-         \cup {[k |-> "create", t |-> t, cols |-> cs, vals |-> <<>>, where |-> <<>>] : t \in {"t8", "t9"}, cs \in {<<"a">>, <<"a", "a">>, <<"a", "b">>}}
+         \* column "c" is declared VARCHAR(2147483648): its length does not fit the catalog's INT column, so the statement
+         \* is refused after it started; whatever follows it in the session must still get an answer
+         \cup {[k |-> "create", t |-> t, cols |-> cs, vals |-> <<>>, where |-> <<>>] : t \in {"t8", "t9"}, cs \in {<<"a">>, <<"a", "a">>, <<"a", "b">>, <<"a", "c">>, <<"c">>}}
+\* LIMIT / OFFSET values incl. the largest integer the parser accepts (code -2; TLC integers are 32 bit)
+LimOffs8 == LimOffs \cup {[limit |-> -2, offset |-> o] : o \in {-1, 0, 1, 5}} \cup {[limit |-> l, offset |-> -2] : l \in {-1, 1}}
 
 ASSUME /\ Out("tables8", Tables8) /\ Out("wheres8", Wheres8) /\ Out("lists8", Lists8) /\ Out("orders8", Orders8)
-       /\ Out("groups8", Groups8) /\ Out("froms8", Froms8) /\ Out("dmls8", Dmls8)
+       /\ Out("groups8", Groups8) /\ Out("froms8", Froms8) /\ Out("dmls8", Dmls8) /\ Out("limoffs8", LimOffs8)
 =============================================================================
